@@ -19,6 +19,7 @@ mod verif;
 mod scoredata;
 
 mod fenmut;
+mod mobility;
 mod obs;
 mod play;
 mod rng;
@@ -71,6 +72,7 @@ fn main() {
         "replay" => play::run_replay(&args),
         "fenmut" | "variants" => fenmut::run(&args),
         "search" => searchdrv::run(&args),
+        "mobility" => mobility::run(&args),
         "tree" => tree::run(&args),
         other => {
             eprintln!("TOOL-ERROR unknown command {:?}", other);
